@@ -41,7 +41,9 @@ type subject struct {
 	Load func(edit string, perResource bool)
 	// Edits that must be invisible for this subject; the first one is the initial list.
 	Edits []string
-	Init  []string // possible initial lists
+	// Others: names of the other rules available for the wide enumeration of lists (see wideLists)
+	Others []string
+	Init   []string // possible initial lists
 }
 
 type runState struct {
@@ -73,31 +75,41 @@ func tickOp(ms int64) func() string {
 
 // ---- rule constructors: X is the subject rule, always built fresh and field-for-field equal ----
 
+// names splits an edit such as "[Y,X,Z]" into rule names.
+func names(edit string) []string {
+	return strings.Split(strings.Trim(edit, "[]"), ",")
+}
+
+// Rule names: X the subject; X' a modified X with the same statistic parameters; Y / Y' another rule
+// and its modification; W / W' a sibling with the SAME statistic parameters as X (so its statistic is
+// reusable for X and vice versa) and its modification; Z a rule with different statistic parameters.
+// Everything but X is permissive, so the decisions observed are X's alone.
 func flowRules(edit string, x func() *flow.Rule) []*flow.Rule {
-	y := func(th float64) *flow.Rule { return &flow.Rule{ID: "Y", Resource: "r", Threshold: th} }
-	z := func() *flow.Rule { return &flow.Rule{ID: "Z", Resource: "r", Threshold: 2e9, StatIntervalInMs: 2000} }
-	xm := func() *flow.Rule { r := x(); r.ID = "X'"; r.Threshold = 1e9; return r } // modified, same statistic parameters
-	switch edit {
-	case "[X]":
-		return []*flow.Rule{x()}
-	case "[Y,X]":
-		return []*flow.Rule{y(1e9), x()}
-	case "[X,Y]":
-		return []*flow.Rule{x(), y(1e9)}
-	case "[Y',X]":
-		return []*flow.Rule{y(3e9), x()}
-	case "[X,Y']":
-		return []*flow.Rule{x(), y(3e9)}
-	case "[Y,X,Z]":
-		return []*flow.Rule{y(1e9), x(), z()}
-	case "[X,X]":
-		return []*flow.Rule{x(), x()}
-	case "[X',X]":
-		return []*flow.Rule{xm(), x()}
-	case "[X,X']":
-		return []*flow.Rule{x(), xm()}
+	var out []*flow.Rule
+	for _, n := range names(edit) {
+		var r *flow.Rule
+		switch n {
+		case "X":
+			r = x()
+		case "X'":
+			r = x()
+			r.ID, r.Threshold = "X'", 1e9
+		case "Y":
+			r = &flow.Rule{ID: "Y", Resource: "r", Threshold: 1e9}
+		case "Y'":
+			r = &flow.Rule{ID: "Y", Resource: "r", Threshold: 3e9}
+		case "W":
+			r = &flow.Rule{ID: "W", Resource: "r", Threshold: 5e8, StatIntervalInMs: x().StatIntervalInMs}
+		case "W'":
+			r = &flow.Rule{ID: "W", Resource: "r", Threshold: 6e8, StatIntervalInMs: x().StatIntervalInMs}
+		case "Z":
+			r = &flow.Rule{ID: "Z", Resource: "r", Threshold: 2e9, StatIntervalInMs: 2000}
+		default:
+			panic("unknown rule name " + n)
+		}
+		out = append(out, r)
 	}
-	panic("unknown edit " + edit)
+	return out
 }
 
 func loadFlow(rs []*flow.Rule, perRes bool) {
@@ -124,9 +136,10 @@ func subjects() []*subject {
 		Apply: func(st *runState, op int) string {
 			return []func() string{func() string { return reqObs(st, "r") }, tickOp(1), tickOp(1000), tickOp(3000)}[op]()
 		},
-		Load:  func(edit string, per bool) { loadFlow(flowRules(edit, fx), per) },
-		Init:  []string{"[X]", "[Y,X]", "[X,Y]"},
-		Edits: []string{"[X]", "[Y,X]", "[X,Y]", "[Y',X]", "[X,Y']", "[Y,X,Z]", "[X,X]", "[X',X]", "[X,X']"},
+		Load:   func(edit string, per bool) { loadFlow(flowRules(edit, fx), per) },
+		Init:   []string{"[X]", "[Y,X]", "[X,Y]"},
+		Edits:  []string{"[X]", "[Y,X]", "[X,Y]", "[Y',X]", "[X,Y']", "[Y,X,Z]", "[X,X]", "[X',X]", "[X,X']"},
+		Others: []string{"Y", "Y'", "W", "W'", "Z", "X'"},
 	})
 	// 2. flow throttling rule (2 per second, queueing up to 600 ms)
 	tx := func() *flow.Rule {
@@ -138,9 +151,10 @@ func subjects() []*subject {
 		Apply: func(st *runState, op int) string {
 			return []func() string{func() string { return reqObs(st, "r") }, tickOp(1), tickOp(300), tickOp(1000)}[op]()
 		},
-		Load:  func(edit string, per bool) { loadFlow(flowRules(edit, tx), per) },
-		Init:  []string{"[X]", "[Y,X]"},
-		Edits: []string{"[X]", "[Y,X]", "[X,Y]", "[Y',X]", "[Y,X,Z]"},
+		Load:   func(edit string, per bool) { loadFlow(flowRules(edit, tx), per) },
+		Init:   []string{"[X]", "[Y,X]"},
+		Edits:  []string{"[X]", "[Y,X]", "[X,Y]", "[Y',X]", "[Y,X,Z]"},
+		Others: []string{"Y", "Y'", "W", "W'", "Z"},
 	})
 	// 3. flow warm-up rule
 	wx := func() *flow.Rule {
@@ -159,36 +173,41 @@ func subjects() []*subject {
 			}
 			return []func() string{nil, tickOp(500), tickOp(1000)}[op]()
 		},
-		Load:  func(edit string, per bool) { loadFlow(flowRules(edit, wx), per) },
-		Init:  []string{"[X]", "[X,Y]"},
-		Edits: []string{"[X]", "[Y,X]", "[X,Y]", "[X,Y']", "[Y,X,Z]"},
+		Load:   func(edit string, per bool) { loadFlow(flowRules(edit, wx), per) },
+		Init:   []string{"[X]", "[X,Y]"},
+		Edits:  []string{"[X]", "[Y,X]", "[X,Y]", "[X,Y']", "[Y,X,Z]"},
+		Others: []string{"Y", "Y'", "W", "W'", "Z", "X'"},
 	})
 	// 4. circuit breaker (error count 1, retry 1000 ms): open / half-open state and deadline
 	bx := func() *cb.Rule {
 		return &cb.Rule{Id: "X", Resource: "r", Strategy: cb.ErrorCount, RetryTimeoutMs: 1000, MinRequestAmount: 1, StatIntervalMs: 5000, Threshold: 1}
 	}
 	cbRules := func(edit string) []*cb.Rule {
-		y := func(th float64) *cb.Rule {
-			return &cb.Rule{Id: "Y", Resource: "r", Strategy: cb.ErrorCount, RetryTimeoutMs: 1000, MinRequestAmount: 1, StatIntervalMs: 2000, Threshold: th}
+		var out []*cb.Rule
+		for _, n := range names(edit) {
+			var r *cb.Rule
+			switch n {
+			case "X":
+				r = bx()
+			case "X'":
+				r = bx()
+				r.Id, r.Threshold = "X'", 1e9
+			case "Y":
+				r = &cb.Rule{Id: "Y", Resource: "r", Strategy: cb.ErrorCount, RetryTimeoutMs: 1000, MinRequestAmount: 1, StatIntervalMs: 2000, Threshold: 1e9}
+			case "Y'":
+				r = &cb.Rule{Id: "Y", Resource: "r", Strategy: cb.ErrorCount, RetryTimeoutMs: 1000, MinRequestAmount: 1, StatIntervalMs: 2000, Threshold: 2e9}
+			case "W":
+				r = bx()
+				r.Id, r.Threshold = "W", 5e8
+			case "W'":
+				r = bx()
+				r.Id, r.Threshold = "W", 6e8
+			default:
+				panic("unknown rule name " + n)
+			}
+			out = append(out, r)
 		}
-		xm := func() *cb.Rule { r := bx(); r.Id = "X'"; r.Threshold = 1e9; return r }
-		switch edit {
-		case "[X]":
-			return []*cb.Rule{bx()}
-		case "[Y,X]":
-			return []*cb.Rule{y(1e9), bx()}
-		case "[X,Y]":
-			return []*cb.Rule{bx(), y(1e9)}
-		case "[Y',X]":
-			return []*cb.Rule{y(2e9), bx()}
-		case "[X,X]":
-			return []*cb.Rule{bx(), bx()}
-		case "[X',X]":
-			return []*cb.Rule{xm(), bx()}
-		case "[X,X']":
-			return []*cb.Rule{bx(), xm()}
-		}
-		panic("unknown edit " + edit)
+		return out
 	}
 	out = append(out, &subject{
 		Name: "circuit-breaker",
@@ -240,32 +259,37 @@ func subjects() []*subject {
 				panic(err)
 			}
 		},
-		Init:  []string{"[X]", "[Y,X]"},
-		Edits: []string{"[X]", "[Y,X]", "[X,Y]", "[Y',X]", "[X,X]", "[X',X]", "[X,X']"},
+		Init:   []string{"[X]", "[Y,X]"},
+		Edits:  []string{"[X]", "[Y,X]", "[X,Y]", "[Y',X]", "[X,X]", "[X',X]", "[X,X']"},
+		Others: []string{"Y", "Y'", "W", "W'", "X'"},
 	})
 	// 5/6. hotspot QPS tokens and hotspot concurrency counters
 	hsRules := func(edit string, x func() *hotspot.Rule) []*hotspot.Rule {
-		y := func(th int64) *hotspot.Rule {
-			return &hotspot.Rule{ID: "Y", Resource: "r", MetricType: hotspot.QPS, Threshold: th, DurationInSec: 3}
+		var out []*hotspot.Rule
+		for _, n := range names(edit) {
+			var r *hotspot.Rule
+			switch n {
+			case "X":
+				r = x()
+			case "X'":
+				r = x()
+				r.ID, r.Threshold = "X'", 1000000000
+			case "Y":
+				r = &hotspot.Rule{ID: "Y", Resource: "r", MetricType: hotspot.QPS, Threshold: 1000000000, DurationInSec: 3}
+			case "Y'":
+				r = &hotspot.Rule{ID: "Y", Resource: "r", MetricType: hotspot.QPS, Threshold: 2000000000, DurationInSec: 3}
+			case "W":
+				r = x()
+				r.ID, r.Threshold = "W", 500000000
+			case "W'":
+				r = x()
+				r.ID, r.Threshold = "W", 600000000
+			default:
+				panic("unknown rule name " + n)
+			}
+			out = append(out, r)
 		}
-		xm := func() *hotspot.Rule { r := x(); r.ID = "X'"; r.Threshold = 1000000000; return r }
-		switch edit {
-		case "[X]":
-			return []*hotspot.Rule{x()}
-		case "[Y,X]":
-			return []*hotspot.Rule{y(1000000000), x()}
-		case "[X,Y]":
-			return []*hotspot.Rule{x(), y(1000000000)}
-		case "[Y',X]":
-			return []*hotspot.Rule{y(2000000000), x()}
-		case "[X,X]":
-			return []*hotspot.Rule{x(), x()}
-		case "[X',X]":
-			return []*hotspot.Rule{xm(), x()}
-		case "[X,X']":
-			return []*hotspot.Rule{x(), xm()}
-		}
-		panic("unknown edit " + edit)
+		return out
 	}
 	loadHs := func(rs []*hotspot.Rule, per bool) {
 		var err error
@@ -289,9 +313,10 @@ func subjects() []*subject {
 				func() string { return reqObs(st, "r", sentinel.WithArgs("A")) },
 				func() string { return reqObs(st, "r", sentinel.WithArgs("B")) }, tickOp(400), tickOp(1100)}[op]()
 		},
-		Load:  func(edit string, per bool) { loadHs(hsRules(edit, qx), per) },
-		Init:  []string{"[X]", "[Y,X]"},
-		Edits: []string{"[X]", "[Y,X]", "[X,Y]", "[Y',X]", "[X,X]", "[X',X]", "[X,X']"},
+		Load:   func(edit string, per bool) { loadHs(hsRules(edit, qx), per) },
+		Init:   []string{"[X]", "[Y,X]"},
+		Edits:  []string{"[X]", "[Y,X]", "[X,Y]", "[Y',X]", "[X,X]", "[X',X]", "[X,X']"},
+		Others: []string{"Y", "Y'", "W", "W'", "X'"},
 	})
 	cx := func() *hotspot.Rule {
 		return &hotspot.Rule{ID: "X", Resource: "r", MetricType: hotspot.Concurrency, Threshold: 1}
@@ -319,9 +344,10 @@ func subjects() []*subject {
 			st.live = st.live[1:]
 			return "x"
 		},
-		Load:  func(edit string, per bool) { loadHs(hsRules(edit, cx), per) },
-		Init:  []string{"[X]", "[Y,X]"},
-		Edits: []string{"[X]", "[Y,X]", "[X,Y]", "[Y',X]", "[X,X]", "[X',X]", "[X,X']"},
+		Load:   func(edit string, per bool) { loadHs(hsRules(edit, cx), per) },
+		Init:   []string{"[X]", "[Y,X]"},
+		Edits:  []string{"[X]", "[Y,X]", "[X,Y]", "[Y',X]", "[X,X]", "[X',X]", "[X,X']"},
+		Others: []string{"Y", "Y'", "W", "W'", "X'"},
 	})
 	return out
 }
@@ -371,6 +397,21 @@ func sig(s *subject, edit string) string {
 	return "C14:" + s.Name + ":" + kind
 }
 
+// wideLists: every list of length <= 3 that contains X exactly once, the rest drawn (with repetition)
+// from others, X in every position.
+func wideLists(others []string) []string {
+	out := []string{"[X]"}
+	for _, a := range others {
+		out = append(out, "[X,"+a+"]", "["+a+",X]")
+	}
+	for _, a := range others {
+		for _, b := range others {
+			out = append(out, "[X,"+a+","+b+"]", "["+a+",X,"+b+"]", "["+a+","+b+",X]")
+		}
+	}
+	return out
+}
+
 func histories(nops, depth int) [][]int {
 	var out [][]int
 	var rec func(cur []int)
@@ -395,6 +436,12 @@ func run(c *props.Ctx) {
 		depth = 7
 	}
 	c.R.Bounds["history_depth"] = depth
+	wdepth := 3
+	if !c.Quick() {
+		wdepth = 4
+	}
+	c.R.Bounds["wide_pass_history_depth"] = wdepth
+	c.R.Bounds["wide_pass_list_length"] = 3
 	subs := subjects()
 	idx := 0
 	perSig := map[string]int{}
@@ -443,7 +490,50 @@ func run(c *props.Ctx) {
 				}
 			}
 		}
-		c.R.Sample(map[string]interface{}{"subject": s.Name, "histories": len(hs), "edits": s.Edits, "initial_lists": s.Init})
+		// wide pass: EVERY initial list (X once, up to two of Y / W around it) x EVERY new list (X once, up
+		// to two of the subject's other rules, in every position) x every shorter history
+		wi, we := wideLists([]string{"Y", "W"}), wideLists(s.Others)
+		whs := histories(len(s.Ops), wdepth)
+		for _, h := range whs {
+			idx++
+			if !c.Mine(idx) {
+				continue
+			}
+			if c.Expired() {
+				c.R.Cap("time budget reached before all histories of the wide pass were explored")
+				return
+			}
+			for _, init := range wi {
+				base := runTrace(s, init, h, -1, "", false)
+				c.R.Evaluations++
+				for _, edit := range we {
+					for _, per := range []bool{false, true} {
+						for p := 0; p < len(h); p++ {
+							got := runTrace(s, init, h, p, edit, per)
+							c.R.Evaluations++
+							c.R.Transitions += int64(len(h))
+							if strings.Join(got, ",") != strings.Join(base, ",") {
+								sg := sig(s, edit)
+								perSig[sg]++
+								if perSig[sg] > 3 {
+									continue
+								}
+								ops := make([]string, len(h))
+								for i, o := range h {
+									ops[i] = s.Ops[o]
+								}
+								c.R.Violate(report.Violation{Signature: sg,
+									What: fmt.Sprintf("%s: initial list %s, history %v, reload of %s (per-resource=%v) before operation %d: decisions %v, without the reload %v",
+										s.Name, init, ops, edit, per, p, got, base),
+									Scenario: s.Name, Replay: replayDoc{s.Name, init, h, p, edit, per, ops}})
+							}
+						}
+					}
+				}
+			}
+		}
+		c.R.Sample(map[string]interface{}{"subject": s.Name, "histories": len(hs), "edits": s.Edits, "initial_lists": s.Init,
+			"wide_histories": len(whs), "wide_initial_lists": len(wi), "wide_new_lists": len(we)})
 	}
 	c.R.States = c.R.Evaluations
 	c.R.Traces = c.R.Evaluations
